@@ -45,18 +45,18 @@ def cases(tier, seed):
         for b in itertools.product("XYZ", repeat=n):
             out.append({"t": "string", "n": n, "basis": "".join(b), "seed": seed, "rep": 0})
     rng = np_rng(ID, seed, "sampled")
-    ns = 12 if tier == "quick" else 200
+    ns = 12 if tier == "quick" else 1500
     for i in range(ns):
         n = int(rng.integers(5, 8))
         out.append({"t": "string", "n": n, "basis": "".join(rng.choice(list("XYZ"), size=n)), "seed": seed, "rep": i})
-    nu = 12 if tier == "quick" else 300
+    nu = 12 if tier == "quick" else 2500
     for i in range(nu):
         out.append({"t": "user", "n": int(rng.integers(1, 5)), "rep": i, "seed": seed})
-    nd = 9 if tier == "quick" else 150
+    nd = 9 if tier == "quick" else 1200
     for i in range(nd):
         out.append({"t": "driven", "kind": ["complex", "mixed"][i % 2], "rep": i, "seed": seed})
     if tier == "thorough":
-        for rep in range(1, 6):
+        for rep in range(1, 30):
             for n in range(1, 5):
                 for b in itertools.product("XYZ", repeat=n):
                     out.append({"t": "string", "n": n, "basis": "".join(b), "seed": seed, "rep": rep})
